@@ -21,6 +21,8 @@ func init() {
 		},
 		Run: runC19,
 		Controls: []Control{
+			{Name: "next-hop-length-switch-without-default", File: "protocols/bgp/packet/mp_reach_nlri.go", Old: "\tnh, err := bnet.IPFromBytes(variable[:firstNextHopLength])\n\tif err != nil {\n\t\treturn MultiProtocolReachNLRI{}, fmt.Errorf(\"failed to decode next hop IP: %w\", err)\n\t}\n\tn.NextHop = nh.Dedup()\n", New: "\tswitch firstNextHopLength {\n\tcase 4, 16:\n\t\tnh, err := bnet.IPFromBytes(variable[:firstNextHopLength])\n\t\tif err != nil {\n\t\t\treturn MultiProtocolReachNLRI{}, fmt.Errorf(\"failed to decode next hop IP: %w\", err)\n\t\t}\n\t\tn.NextHop = nh.Dedup()\n\t}\n", Expect: "reach-nlri-carries-next-hop"},
+			{Name: "nlri-field-carved-with-next", File: "protocols/bgp/packet/nlri.go", Old: "\tfor p < length {\n\t\tnlri, consumed, err = decodeNLRI(buf, afi, safi, addPath)", New: "\tbuf = bytes.NewBuffer(buf.Next(int(length)))\n\tfor buf.Len() > 0 {\n\t\tnlri, consumed, err = decodeNLRI(buf, afi, safi, addPath)", Expect: "short-reads-are-errors"},
 			{Name: "med-length-not-enforced", File: "protocols/bgp/packet/path_attributes.go", Old: "func (pa *PathAttribute) decodeMED(buf *bytes.Buffer) error {\n\tif pa.Length != 4 {\n\t\treturn fmt.Errorf(\"invalid attribute length %d, expected 4\", pa.Length)\n\t}\n\n\tmed := uint32(0)\n\terr := decode.DecodeUint32(buf, &med)\n\tif err != nil {\n\t\treturn err\n\t}\n\n\tpa.Value = med\n\treturn nil\n}", New: "func (pa *PathAttribute) decodeMED(buf *bytes.Buffer) error {\n\treturn pa.decodeUint32(buf, \"MED\")\n}", Expect: "fixed-size-attribute-length-enforced"},
 			{Name: "origin-surplus-octets-skipped", File: "protocols/bgp/packet/path_attributes.go", Old: "\tif pa.Length != 1 {\n\t\treturn fmt.Errorf(\"invalid attribute length %d, expected 1\", pa.Length)\n\t}\n", New: "", Expect: "fixed-size-attribute-length-enforced"},
 			{Name: "refactor-length-test-in-shared-helper", Silent: true, File: "protocols/bgp/packet/path_attributes.go", Old: "func (pa *PathAttribute) decodeOriginatorID(buf *bytes.Buffer) error {\n\tif pa.Length != 4 {\n\t\treturn fmt.Errorf(\"invalid attribute length %d, expected 4\", pa.Length)\n\t}\n\n\treturn pa.decodeUint32(buf, \"OriginatorID\")", New: "func (pa *PathAttribute) decodeOriginatorID(buf *bytes.Buffer) error {\n\tif pa.Length > 4 || pa.Length < 4 {\n\t\treturn fmt.Errorf(\"invalid attribute length\")\n\t}\n\n\treturn pa.decodeUint32(buf, \"OriginatorID\")"},
@@ -37,6 +39,8 @@ func init() {
 func runC19(c *core.Ctx) {
 	p := c.P
 	fixedSizeAttributes(c)
+	reachCarriesNextHop(c)
+	shortReadsAreErrors(c)
 	const pkt = "protocols/bgp/packet"
 	// (1) prefix length ------------------------------------------------------------------------------
 	if f := c.MustFunc(pkt + ".deserializePrefix"); f != nil {
